@@ -40,11 +40,17 @@ ASSUMPTIONS = [
     'Command Complete for the pool of that link (LE link -> LE pool unless its length/count is zero, then the BR/EDR '
     'pool; CIS/BIS -> ISO pool); every link is gone before Host.reset() is called a second time',
 ]
+# hostwire: deciding counters (about half of what a run produces)
+HOSTWIRE_MIN = {'hostwire_histories': 2400, 'hostwire_fragments_checked': 100000, 'hostwire_fragments_le': 35000,
+                'hostwire_fragments_bredr': 15000, 'hostwire_fragments_cis': 15000, 'hostwire_fragments_bis': 8000,
+                'hostwire_packets_shared': 10000, 'hostwire_second_resets': 900,
+                'hostwire_fragments_after_second_reset': 40000, 'hostwire_fragments_at_length_limit': 45000,
+                'hostwire_multi_fragment_units': 40000, 'hostwire_pdus_rebuilt': 35000, 'hostwire_sdus_rebuilt': 20000}
 MIN_EVENTS = {
     'quick': {'fragments_checked': 35000, 'pdus_delivered': 5000, 'malformed_injected': 1200, 'iso_fragments': 20000,
-              'max_size_pdus': 30},
+              'max_size_pdus': 30, **HOSTWIRE_MIN},
     'thorough': {'fragments_checked': 250000, 'pdus_delivered': 25000, 'malformed_injected': 9000,
-                 'iso_fragments': 200000, 'max_size_pdus': 150},
+                 'iso_fragments': 200000, 'max_size_pdus': 150, **{k: 16 * v for k, v in HOSTWIRE_MIN.items()}},
 }
 CASE_TIMEOUT = 600
 
@@ -61,8 +67,8 @@ def plan(tier, seed):
         cases.append({'kind': 'malformed', 'seed': seed * 1000003 + i})
     for i in range(400 if tier == 'quick' else 3200):
         cases.append({'kind': 'iso', 'seed': seed * 1000003 + i})
-    for i in range(64 if tier == 'quick' else 640):
-        cases.append({'kind': 'hostwire', 'seed': seed * 1000003 + i, 'histories': 20 if tier == 'quick' else 40})
+    for i in range(96 if tier == 'quick' else 960):
+        cases.append({'kind': 'hostwire', 'seed': seed * 1000003 + i, 'histories': 25 if tier == 'quick' else 40})
     return cases
 
 
@@ -572,7 +578,7 @@ LEVEL_TEXT = ('Fragment-level oracle (length bound, start/continuation markers, 
               "sender's HCI log and exact delivery at the receiver for ~480 (quick) / ~4800 (thorough) generated "
               'geometries and PDU size sequences incl. 65531..65535-byte payloads, LE and BR/EDR; 9 kinds of '
               'malformed fragment sequences injected between good PDUs; ISO SDU fragmentation checked field by field; '
-              '~10^3 (quick) / 2.5x10^4 (thorough) histories of a real Host reset against a Controller whose BR/EDR, LE '
+              '2400 (quick) / 38400 (thorough) histories of a real Host reset against a Controller whose BR/EDR, LE '
               '(dedicated or shared) and ISO pools have different lengths, with hand-played BR/EDR / LE / CIS / BIS links '
               'and a second reset with another geometry: every emitted fragment against the length of its own pool. '
               'Sampling with boundary-biased sizes, not proof.')
